@@ -17,8 +17,6 @@ import (
 	lunar_messages "lunar/engine/messages"
 	"lunar/engine/routing"
 
-	"github.com/rs/zerolog"
-
 	c "verifharness/common"
 )
 
@@ -75,11 +73,16 @@ type Var struct {
 }
 
 type Case struct {
-	Side    string `json:"side"` // req | resp
-	Actions []Act  `json:"actions"`
-	Result  Res    `json:"result"`
-	Vars    []Var  `json:"spoe_vars"`      // from routing.getSPOE*Actions (real fold)
-	EncVars []Var  `json:"encoded_result"` // Result's own Req/RespToSpoeActions()
+	Side string `json:"side"` // req | resp
+	// the level of the process logger the case ran under (loglevel.go); suites
+	// req / resp: the variables of the real fold under the OTHER level besides
+	LogLevel      string `json:"log_level,omitempty"`
+	OtherLevel    string `json:"other_log_level,omitempty"`
+	VarsOtherLevl []Var  `json:"spoe_vars_under_other_log_level,omitempty"`
+	Actions       []Act  `json:"actions"`
+	Result        Res    `json:"result"`
+	Vars          []Var  `json:"spoe_vars"`      // from routing.getSPOE*Actions (real fold)
+	EncVars       []Var  `json:"encoded_result"` // Result's own Req/RespToSpoeActions()
 	// the sequence without its no-ops, through the real fold (response side)
 	VarsNoNoops []Var `json:"spoe_vars_without_noops,omitempty"`
 	// legacy mode (sides legacy_req / legacy_resp): the remedies declared, how
@@ -378,18 +381,19 @@ func coqVar(v Var) string {
 
 func coqCase(k *Case) string {
 	r := k.Result
+	// (level, (actions, result, variables)): case_req_lv / case_resp_lv of Level.v
 	if k.Side == "req" {
-		return c.Tuple(
+		return c.Tuple(coqLevel(k.LogLevel), c.Tuple(
 			c.MapList(k.Actions, func(a Act) string {
 				return coqReq(a.Kind, a.Headers, a.Host, a.Path, a.Query, a.Body, a.Remove, a.Status)
 			}),
 			coqReq(r.Kind, r.Headers, r.Host, r.Path, r.Query, r.Body, r.Remove, r.Status),
-			c.MapList(k.Vars, coqVar))
+			c.MapList(k.Vars, coqVar)))
 	}
-	return c.Tuple(
+	return c.Tuple(coqLevel(k.LogLevel), c.Tuple(
 		c.MapList(k.Actions, func(a Act) string { return coqResp(a.Kind, a.Headers, a.Body, a.Status) }),
 		coqResp(r.Kind, r.Headers, r.Body, r.Status),
-		c.MapList(k.Vars, coqVar))
+		c.MapList(k.Vars, coqVar)))
 }
 
 // ---------------------------------------------------------------- generators
@@ -614,10 +618,10 @@ func witnesses(f func(Case)) {
 // ---------------------------------------------------------------- main
 
 func main() {
-	zerolog.SetGlobalLevel(zerolog.Disabled)
+	setLogLevel(lvError)
 	o := c.NewOut("C07")
-	o.DeclareSuite("req", "From Verif Require Import C07.Model.", "case_req", "run_req")
-	o.DeclareSuite("resp", "From Verif Require Import C07.Model.", "case_resp", "run_resp")
+	o.DeclareSuite("req", "From Verif Require Import C07.Model C07.Level.", "case_req_lv", "run_req_lv")
+	o.DeclareSuite("resp", "From Verif Require Import C07.Model C07.Level.", "case_resp_lv", "run_resp_lv")
 	o.DeclareSuite("legacy_req", "From Verif Require Import C07.Model.", "case_legacy_req", "run_legacy_req")
 	o.DeclareSuite("legacy_resp", "From Verif Require Import C07.Model.", "case_legacy_resp", "run_legacy_resp")
 	o.DeclareSuite("sess_req", "From Verif Require Import C07.Model.", "case_sess_req", "run_sess_req")
@@ -662,7 +666,17 @@ func main() {
 		"distinct = distinct (inputs, observed result, observed variables); " +
 		"non-trivial = at least two actions of the sequence are not no-ops (session: some producer carrying " +
 		"headers fires in two transactions and some transaction combines two actions that are not no-ops; held: at " +
-		"least two transactions whose actions are not all no-ops)")
+		"least two transactions whose actions are not all no-ops). " +
+		"Log level (loglevel.go): the process logger is configured as the engine does for LOG_LEVEL=trace and for " +
+		"LOG_LEVEL=error (its default), the log going to a counting sink; every case of the suites req / resp is " +
+		"executed under BOTH levels (the case evaluated by Coq carries its level and is the trace execution or the " +
+		"error execution with equal chance; the other execution is monitored the same way - union of the edits, first early " +
+		"response unchanged, inputs not written to - and its variables must equal the first's); every session, held " +
+		"history and legacy case runs under one level, trace or error with equal chance. Credential names (authorization, " +
+		"proxy-authorization, x-api-key, cookie, set-cookie) are in every pool of special names, and systematic: " +
+		"every kind that carries a header dump x each of the five names x 4 spellings (lower, Mixed-Case, UPPER, " +
+		"aLtErNaTiNg) x {the action alone: the prioritized action is the producer's own struct; merged behind " +
+		"another edit and a no-op; set twice, the later value wins / the first early response is sent unchanged}")
 	var k Case
 	if _, ok := o.ReplayCase(&k); ok {
 		if strings.HasPrefix(k.Side, "legacy_") {
@@ -688,6 +702,7 @@ func main() {
 	witnesses(f)
 	namedPairs(f)
 	fmtSingles(f)
+	credentialCases(f)
 	o.Exhaustive(true) // within the scope the rule states for the tier
 	switch o.Tier {
 	case "thorough":
@@ -756,11 +771,21 @@ func main() {
 	if o.Tier == "thorough" {
 		raceVariant(o)
 	}
+	noteLogLines(o)
 	o.Finish()
 }
 
 func run(o *c.Out, k Case) {
+	k.LogLevel = setLogLevel(pickLevel(o, k.LogLevel))
+	k.OtherLevel, k.VarsOtherLevl = "", nil
 	exec(&k)
+	// the same case under the other log level: monitored like the first
+	// execution, not written for Coq
+	k2 := k
+	k2.LogLevel = setLogLevel(otherLevel(k.LogLevel))
+	exec(&k2)
+	k.OtherLevel, k.VarsOtherLevl = k2.LogLevel, k2.Vars
+	k2.OtherLevel, k2.VarsOtherLevl = k.LogLevel, k.Vars
 	nonNoop := 0
 	for _, a := range k.Actions {
 		if a.Kind != kNoop {
@@ -769,19 +794,41 @@ func run(o *c.Out, k Case) {
 	}
 	o.Count(fmt.Sprintf("%s:len=%02d", k.Side, len(k.Actions)))
 	o.Count(k.Side + ":result=" + k.Result.Kind)
+	o.Count(k.Side + ":log-level=" + k.LogLevel + "(+" + k2.LogLevel + " monitored)")
 	countNames(o, k.Side, k.Actions)
+	countCredentials(o, k.Side, "both", k.Actions)
 	if len(k.StructUpdated) > 0 {
 		o.Count(k.Side + ":struct-updated-in-place")
 	}
 	idx := o.Case(k.Side, coqCase(&k), k, nonNoop >= 2)
-	o.MonitorChecked(1)
-	hits := monitor(o, &k)
-	// the loop over the public methods (where the resulting action is observed)
-	// and the real routing fold must hand the proxy the same variables
-	if a, b := canonVars(k.Vars), canonVars(k.EncVars); a != b && k.Result.Kind != "panic" {
-		hits = append(hits, c.Hit{Signature: "fold-copy-diverges:" + k.Side,
-			Demanded: "routing.getSPOE*Actions produces the variables of the action the fold over the public " +
-				"Prioritize methods yields: " + b, Observed: a, Case: &k})
+	o.MonitorChecked(2)
+	var hits []c.Hit
+	for _, x := range []*Case{&k, &k2} {
+		x := x
+		hs := monitor(o, x)
+		// the loop over the public methods (where the resulting action is observed)
+		// and the real routing fold must hand the proxy the same variables
+		if a, b := canonVars(x.Vars), canonVars(x.EncVars); a != b && x.Result.Kind != "panic" {
+			hs = append(hs, c.Hit{Signature: "fold-copy-diverges:" + x.Side,
+				Demanded: "routing.getSPOE*Actions produces the variables of the action the fold over the public " +
+					"Prioritize methods yields: " + b, Observed: a, Case: x})
+		}
+		for i := range hs {
+			hs[i].Demanded = "[log level " + x.LogLevel + "] " + hs[i].Demanded
+		}
+		hits = append(hits, hs...)
+	}
+	// the encoding is a function of the sequence of actions: the level of the
+	// logger is not an input of the combination
+	if a, b := canonVars(k.Vars), canonVars(k2.Vars); a != b && k.Result.Kind != "panic" && k2.Result.Kind != "panic" {
+		rep := &k
+		if k2.LogLevel == lvTrace {
+			rep = &k2
+		}
+		hits = append(hits, c.Hit{Signature: "log-level-changes-encoding:" + k.Side,
+			Demanded: "the variables handed to the proxy for a sequence of actions are the same whatever the level of " +
+				"the process logger; under log level " + k.LogLevel + ": " + a,
+			Observed: "under log level " + k2.LogLevel + ": " + b, Case: rep})
 	}
 	for _, h := range hits {
 		h.Suite, h.Index = k.Side, idx
